@@ -1,6 +1,7 @@
 package checks
 
 import (
+	"time"
 	"verifharness/internal/kv"
 	"verifharness/internal/rng"
 	"verifharness/internal/sup"
@@ -36,7 +37,7 @@ func init() {
 		Prop:  "C01",
 		Level: "exploration",
 		Rule: "differential simulation against an executable sequential specification with a full read-back (GetRaw, Exists, GetExpiry, GetWithXattrs, GetXattrs, virtual xattrs) before and after every operation; " +
-			"cases = bounded-exhaustive (pre-state setup x op variant x follow-up) sequences plus PRNG-drawn long histories; a cell is distinct if (op variant, pre-state class, outcome class, bucket type) is new",
+			"cases = bounded-exhaustive (pre-state setup x op variant x follow-up) sequences plus PRNG-drawn long histories; plus reads through the DataStore a second handle still holds for a collection that was dropped (they must report every key missing, whatever was created since); a cell is distinct if (op variant, pre-state class, outcome class, bucket type) is new",
 		Assumptions: []string{"bodies up to a few hundred bytes, plus a profile with 64 KiB - 1 MiB bodies and a MaxDocSize boundary profile", "keys from a small pool plus hostile keys", "expiries far in the future (timer never fires)", "error messages, log output not compared"},
 		Parts: []sup.Part{
 			exhaustivePart("exhaustive", base),
@@ -44,6 +45,7 @@ func init() {
 			randomPart("hostile-keys", 60, 900, hk),
 			randomPart("big-bodies", 40, 400, big),
 			randomPart("maxdocsize", 60, 900, small),
+			{Name: "stale-handle-after-drop", Timeout: 60 * time.Second, Count: func(t string) int { return tierN(t, 60, 1200) }, Run: staleHandleScenario},
 		},
 		Floor: func(tier string, m *sup.Merged) string {
 			if len(m.Cells) < 300 {
